@@ -6,6 +6,7 @@
  * usage: c20 <pairs 0|1> | c20 replay <case> <k> [<j>]     env CAT_LIB (wrap variant) */
 #define _GNU_SOURCE
 #include <stdio.h>
+#include <stdarg.h>
 #include <stdlib.h>
 #include <string.h>
 #include <signal.h>
@@ -67,11 +68,36 @@ static void c_icmp(Res *res) { int d = 99; int r = wcsicmp_p(L"Hello World", 12,
 static void c_natcmp(Res *res) { int d = 99; int r = wcsnatcmp_p(L"File10 Name", 12, L"file9 name", 12, 1, &d, BOSU, BOSU); res->rc = r; res->failind = r != 0; res->has_dest = 0; res->dest_cleared = 1; }
 static void c_fprintf_ls(Res *res) { char *mb = NULL; size_t ml = 0; tracking = 0; FILE *f = open_memstream(&mb, &ml); tracking = 1; int r = fprintf_p(f, "[%ls|%Lf]", L"stream", (long double)1.5); tracking = 0; fclose(f); __libc_free(mb); tracking = 1; res->rc = r; res->failind = r < 0; res->has_dest = 0; res->dest_cleared = 1; }
 
+
+/* the v-entry points have their own probe buffers: reached through a va_list */
+static int (*vswprintf_p)(wchar_t *, size_t, size_t, const wchar_t *, va_list);
+static int (*vsnwprintf_p)(wchar_t *, size_t, size_t, const wchar_t *, va_list);
+static int vsw(wchar_t *d, size_t dmax, const wchar_t *fmt, ...) { va_list ap; va_start(ap, fmt); int r = vswprintf_p(d, dmax, BOSU, fmt, ap); va_end(ap); return r; }
+static int vsnw(wchar_t *d, size_t dmax, const wchar_t *fmt, ...) { va_list ap; va_start(ap, fmt); int r = vsnwprintf_p(d, dmax, BOSU, fmt, ap); va_end(ap); return r; }
+static void c_vsw_nospc_big(Res *res) { prep(); int r = vsw(wd, 600, L"%0700d", 7); WRES(r); }
+static void c_vsnw_nospc_big(Res *res) { prep(); int r = vsnw(wd, 600, L"%0700d", 7); res->rc = r; res->failind = 1; res->has_dest = 0; res->dest_cleared = 1; }
+/* a conversion error (a narrow %s argument that is no multibyte string in this locale) instead of a space problem, with dmax on either side of the 512-element probe limit */
+static void c_sw_badmb_big(Res *res) { prep(); int r = swprintf_p(wd, 600, BOSU, L"<%s>", "\xff\xfe"); WRES(r); }
+static void c_sw_badmb_small(Res *res) { prep(); int r = swprintf_p(wd, 64, BOSU, L"<%s>", "\xff\xfe"); WRES(r); }
+static void c_vsw_badmb_big(Res *res) { prep(); int r = vsw(wd, 600, L"<%s>", "\xff\xfe"); WRES(r); }
+static void c_snw_badmb_big(Res *res) { prep(); int r = snwprintf_p(wd, 600, BOSU, L"<%s>", "\xff\xfe"); WRES(r); }
+static void c_vsnw_badmb_big(Res *res) { prep(); int r = vsnw(wd, 600, L"<%s>", "\xff\xfe"); WRES(r); }
+static void c_sw_ok_big(Res *res) { prep(); int r = swprintf_p(wd, 600, BOSU, L"%d|%ls|%s", 5, L"wide", "narrow"); WRES(r); }
+static void c_vsw_ok_big(Res *res) { prep(); int r = vsw(wd, 600, L"%d|%ls|%s", 5, L"wide", "narrow"); WRES(r); }
+/* operands whose case folding triples in length, bounds of length + 1 */
+static const wchar_t exp2[] = { 0x390, 0x390, 0 }, exp2b[] = { 0x3b0, 0x390, 0 }, exp10[] = { 0x390, 0x390, 0x390, 0x390, 0x390, 0x390, 0x390, 0x390, 0x390, 0x390, 0 };
+static void c_natcmp_exp(Res *res) { int d = 99; int r = wcsnatcmp_p(exp2, 3, exp2b, 3, 1, &d, BOSU, BOSU); res->rc = r; res->failind = r != 0; res->has_dest = 0; res->dest_cleared = 1; }
+static void c_natcmp_exp_src(Res *res) { int d = 99; int r = wcsnatcmp_p(L"ab", 3, exp2, 3, 1, &d, BOSU, BOSU); res->rc = r; res->failind = r != 0; res->has_dest = 0; res->dest_cleared = 1; }
+static void c_icmp_exp(Res *res) { int d = 99; int r = wcsicmp_p(exp10, 11, exp10, 11, &d, BOSU, BOSU); res->rc = r; res->failind = r != 0; res->has_dest = 0; res->dest_cleared = 1; }
+
 static struct { const char *name; void (*fn)(Res *); } cases[] = {
     { "sprintf_ls", c_ls }, { "sprintf_ls_unconvertible", c_ls_bad }, { "sprintf_ls2", c_ls2 }, { "snprintf_ls_trunc", c_ls_trunc }, { "sprintf_Lf", c_Lf }, { "sprintf_Le", c_Le },
     { "sprintf_La", c_La }, { "sprintf_a", c_a }, { "sprintf_Lf_ls_a", c_Lf_ls }, { "sprintf_Lf_wide_field", c_Lf_wide }, { "swprintf_nospc", c_sw_nospc }, { "swprintf_nospc_big", c_sw_nospc_big },
     { "snwprintf_nospc_big", c_snw_nospc_big }, { "wcsnorm_long", c_norm_long }, { "wcsnorm_marks_nfc", c_norm_marks }, { "wcsnorm_marks_nfd", c_norm_marks2 }, { "wcsnorm_marks_nfc_lenp_null", c_norm_marks_nolen }, { "wcsnorm_marks_nfd_lenp_null", c_norm_marks2_nolen }, { "wcsnorm_long_lenp_null", c_norm_long_nolen },
     { "wcsicmp", c_icmp }, { "wcsnatcmp_fold", c_natcmp }, { "fprintf_ls_Lf", c_fprintf_ls },
+    { "vswprintf_nospc_big", c_vsw_nospc_big }, { "vsnwprintf_nospc_big", c_vsnw_nospc_big }, { "swprintf_badmb_big", c_sw_badmb_big }, { "swprintf_badmb_small", c_sw_badmb_small }, { "vswprintf_badmb_big", c_vsw_badmb_big },
+    { "snwprintf_badmb_big", c_snw_badmb_big }, { "vsnwprintf_badmb_big", c_vsnw_badmb_big }, { "swprintf_ok_big", c_sw_ok_big }, { "vswprintf_ok_big", c_vsw_ok_big },
+    { "wcsnatcmp_fold_expanding", c_natcmp_exp }, { "wcsnatcmp_fold_expanding_src", c_natcmp_exp_src }, { "wcsicmp_expanding", c_icmp_exp },
 };
 #define NC ((int)(sizeof cases / sizeof cases[0]))
 static int verbose; static long n_runs, n_viol;
@@ -103,9 +129,9 @@ int main(int argc, char **argv) {
     void *L = dlopen(getenv("CAT_LIB"), RTLD_NOW | RTLD_GLOBAL);
     if (!L) { fprintf(stderr, "cannot load CAT_LIB: %s\n", dlerror()); return 2; }
     sprintf_p = dlsym(L, "_sprintf_s_chk"); snprintf_p = dlsym(L, "_snprintf_s_chk"); swprintf_p = dlsym(L, "_swprintf_s_chk"); snwprintf_p = dlsym(L, "_snwprintf_s_chk");
-    wcsnorm_p = dlsym(L, "_wcsnorm_s_chk"); wcsicmp_p = dlsym(L, "_wcsicmp_s_chk"); wcsnatcmp_p = dlsym(L, "_wcsnatcmp_s_chk"); fprintf_p = dlsym(L, "fprintf_s");
+    wcsnorm_p = dlsym(L, "_wcsnorm_s_chk"); wcsicmp_p = dlsym(L, "_wcsicmp_s_chk"); wcsnatcmp_p = dlsym(L, "_wcsnatcmp_s_chk"); fprintf_p = dlsym(L, "fprintf_s"); vswprintf_p = dlsym(L, "_vswprintf_s_chk"); vsnwprintf_p = dlsym(L, "_vsnwprintf_s_chk");
     void *(*ss)(void *) = dlsym(L, "set_str_constraint_handler_s"), *(*sm)(void *) = dlsym(L, "set_mem_constraint_handler_s");
-    if (!sprintf_p || !wcsnorm_p || !wcsicmp_p || !ss || !fprintf_p) { fprintf(stderr, "missing symbols\n"); return 2; }
+    if (!vswprintf_p || !vsnwprintf_p || !sprintf_p || !wcsnorm_p || !wcsicmp_p || !ss || !fprintf_p) { fprintf(stderr, "missing symbols\n"); return 2; }
     ss((void *)handler); sm((void *)handler);
     for (int i = 0; i < 150; i++) longsrc[i] = 0x00e9;   /* 150 x e-acute: decomposes to 300 elements */
     longsrc[150] = 0;
